@@ -235,11 +235,11 @@ func VerifC01Exact() {
 	v.Reach("C01.exact")
 }
 
-func VerifC01Round_0_0() { c01Round(0, 0, 2) }
-func VerifC01Round_1_0() { c01Round(1, 0, 2) }
-func VerifC01Round_0_1() { c01Round(0, 1, 2) }
-func VerifC01Round_1_1() { c01Round(1, 1, 1) }
+func VerifC01Round_0_0()   { c01Round(0, 0, 2) }
+func VerifC01Round_1_0()   { c01Round(1, 0, 2) }
+func VerifC01Round_0_1()   { c01Round(0, 1, 2) }
+func VerifC01Round_1_1()   { c01Round(1, 1, 1) }
 func VerifC01Round_1_1x2() { c01Round(1, 1, 2) }
-func VerifC01Round_2_2() { c01Round(2, 2, 2) }
-func VerifC01Round_3_2() { c01Round(3, 2, 2) }
-func VerifC01Round_4_3() { c01Round(4, 3, 3) }
+func VerifC01Round_2_2()   { c01Round(2, 2, 2) }
+func VerifC01Round_3_2()   { c01Round(3, 2, 2) }
+func VerifC01Round_4_3()   { c01Round(4, 3, 3) }
